@@ -186,6 +186,10 @@ def run_switch(acc):
         ureg = regs.default("Fraction", fresh=True)
         for sname in order:
             ureg.default_system = sname
+            for other in order:
+                if other != sname:
+                    for n in probes:  # queries that name another system must not leak into the default answers below
+                        call(lambda: ureg.get_base_units(n, system=other))
             for n in probes:
                 acc.ev()
                 acc.nt(("switch", order, sname, n))
@@ -289,6 +293,7 @@ u4 = 7 * ua
 GEV = [
     ("system", "S1"), ("system", "S2"), ("system", None),
     ("q", "u2"), ("q", "u3"), ("q", "u2*u3"),
+    ("qsys", "u2", "S2"), ("qsys", "u3", "S1"), ("qsys", "u2", None),
     ("add_units", "G1", "u4"), ("remove_units", "G1", "u4"), ("remove_units", "G1", "g1a"), ("add_units", "G3", "u2"),
     ("add_groups", "G3", "G1"), ("remove_groups", "G3", "G1"), ("remove_groups", "G2", "G1"),
     ("add_groups", "G1", "G2"), ("add_groups", "G1", "G1"),
@@ -371,6 +376,9 @@ class GroupDriver(explore.Driver):
             return call(setsys)[:1]
         if k == "q":
             return call(lambda: (lambda q: [str(q.magnitude), sorted(dict(q._units))])(r.Quantity(1, ev[1]).to_base_units()))
+        if k == "qsys":
+            # a query that NAMES a system: answers for that system, and leaves the default-system answers alone
+            return call(lambda: (lambda fu: [str(fu[0]), sorted(dict(fu[1]._units))])(r.get_base_units(ev[1], system=ev[2])))
         if k == "add_units":
             s.units[ev[1]].add(ev[2])
             return call(lambda: r.get_group(ev[1], False).add_units(ev[2]))[:1]
@@ -426,6 +434,14 @@ class GroupDriver(explore.Driver):
                 s.hung = True
                 acc.violation(["group-edit", last[0], "does-not-terminate", ""], case, "termination", "no answer within 3 s")
                 return
+            if last[0] == "qsys":
+                key = ("qsys",) + tuple(last[1:])
+                if key not in self._base_ref:
+                    f = regs.tiny(TLINES, non_int_type="Fraction")
+                    self._base_ref[key] = call(lambda: (lambda fu: [str(fu[0]), sorted(dict(fu[1]._units))])(f.get_base_units(last[1], system=last[2])))
+                acc.ev()
+                if o != self._base_ref[key]:
+                    acc.violation(["named-system", "get_base_units(system=)", "differs-from-fresh-registry", "after-" + (hist[-2][0] if len(hist) > 1 else "init")], case, self._base_ref[key], o)
             if last[0] == "add_groups" and o[1] == "cyclic" and o[0] != "ValueError":
                 acc.violation(["group-edit", "add_groups", "cyclic-relationship-not-refused", "self" if last[1] == last[2] else "indirect"], case, "ValueError", o[0])
         signal.signal(signal.SIGVTALRM, _alarm)
@@ -542,8 +558,8 @@ MANIFEST = {
     "technique": "explicit-state BFS over default-system changes and group edits on the real registry with a set-based closure model in lock-step; bounded exhaustive enumeration of unit x system base-unit rewriting against R1/R6",
     "text": "Every multiplicative canonical unit x 8 system settings: get_base_units(system=), to_base_units and ito_base_units under default_system must use only the system's declared base units plus the root units "
     "it does not replace, preserve dimensionality and exact physical value (Fraction registry), be idempotent and leave the operand alone; all 2-factor compounds over 10 units; every ordered triple of "
-    "default-system changes is effective on the next query; get_compatible_units(u, G) for every unit x every group and system equals members(G) of the same dimension; sys.<S>.<name> resolves the system variant. "
-    "Histories: all sequences up to depth 3 (4) over 19 events (default-system settings, base-unit queries, add/remove units and groups including a self-cycle and an indirect cycle, membership queries, defining a "
+    "default-system changes is effective on the next query even after queries that named the other systems; get_compatible_units(u, G) for every unit x every group and system equals members(G) of the same dimension; sys.<S>.<name> resolves the system variant. "
+    "Histories: all sequences up to depth 3 (4) over 22 events (default-system settings, base-unit queries under the default and under a named system, add/remove units and groups including a self-cycle and an indirect cycle, membership queries, defining a "
     "unit into a group) on a generated 3-group / 2-system registry; in every state the members of all groups and systems, restricted listings and base-unit answers are compared with a reference closure model "
     "and a fresh registry; cyclic attempts must raise and change nothing; every step is run under a 3 s alarm so that a non-terminating closure is reported, not waited for.",
     "note": "Trusted: R1/R6 (system rule inversion is NOT re-derived: only allowed units, value preservation and idempotence are asserted, which pins the factor). Compounds with more than 2 factors, generated "
